@@ -760,6 +760,10 @@ impl Rig {
                 self.rt.spawn(async move { reader.start(Some(Duration::from_millis(ms)), None, None).await });
                 verif::trace::emit(json!({"e": "EventReaderStarted"}));
             }
+            "notify_key_keeper" => {
+                let kk = self.shared.get_key_keeper_shared_state();
+                let _ = self.rt.block_on(kk.notify());
+            }
             "key_state" => {
                 let kk = self.shared.get_key_keeper_shared_state();
                 let guid = self.rt.block_on(kk.get_current_key_guid()).unwrap_or(None);
